@@ -374,10 +374,12 @@ class DiscriminatedUnionUnpackerBuilder(AbstractUnpackerBuilder):
             variant_method_name, spec
         )
         if discriminator.variant_tagger_fn:
+            # several discriminators of one class may have different taggers
+            variant_tagger_fn = f"variant_tagger_fn_{random_hex()}"
             spec.builder.ensure_object_imported(
-                discriminator.variant_tagger_fn, "variant_tagger_fn"
+                discriminator.variant_tagger_fn, variant_tagger_fn
             )
-            variant_tagger_expr = "variant_tagger_fn(variant)"
+            variant_tagger_expr = f"{variant_tagger_fn}(variant)"
         else:
             variant_tagger_expr = f"variant.__dict__[{discriminator.field!r}]"
 
